@@ -14,24 +14,24 @@ TRUSTED_BASE = [
 
 # modules whose theorems are the obligations of the property (audited); `ties` are built too (a failure = tie broken)
 PROPS = {
-    "C01": dict(modules=["Cvss.Props.C01v2", "Cvss.Props.C01v3", "Cvss.Props.C01v4"], ties=["Cvss.Model.SrcTie"], streams=["parse"]),
+    "C01": dict(modules=["Cvss.Props.C01", "Cvss.Props.C01v2", "Cvss.Props.C01v3", "Cvss.Props.C01v4"], ties=["Cvss.Model.SrcTie"], streams=["parse"]),
     "C02": dict(modules=["Cvss.Props.C02v2", "Cvss.Props.C02v3", "Cvss.Props.C02v4"], ties=["Cvss.Model.SrcTie"], streams=["parse", "obj"]),
     "C03": dict(modules=[], ties=[], streams=["score"]),
     "C04": dict(modules=[], ties=[], streams=["score"]),
     "C05": dict(modules=[], ties=[], streams=["score"]),
-    "C06": dict(modules=["Cvss.Props.C06v2", "Cvss.Props.C06v3", "Cvss.Props.C06v4"], ties=["Cvss.Model.SrcTie"], streams=["parse"]),
-    "C07": dict(modules=["Cvss.Props.C07v4"], ties=[], streams=["obj"]),
+    "C06": dict(modules=["Cvss.Props.C06", "Cvss.Props.C06v2", "Cvss.Props.C06v3", "Cvss.Props.C06v4"], ties=["Cvss.Model.SrcTie"], streams=["parse"]),
+    "C07": dict(modules=["Cvss.Props.C07", "Cvss.Props.C07v4"], ties=[], streams=["obj"]),
     "C08": dict(modules=["Cvss.Props.C08v2", "Cvss.Props.C08v3", "Cvss.Props.C08v4"], ties=["Cvss.Model.SrcTie"], streams=["parse", "obj"]),
-    "C09": dict(modules=["Cvss.Props.C09v4"], ties=[], streams=["obj", "parse"]),
+    "C09": dict(modules=["Cvss.Props.C09", "Cvss.Props.C09v4"], ties=[], streams=["obj", "parse"]),
     "C10": dict(modules=[], ties=[], streams=["score"]),
     "C11": dict(modules=[], ties=[], streams=["score"]),
     "C12": dict(modules=[], ties=[], streams=["score"]),
-    "C13": dict(modules=["Cvss.Props.C13v2", "Cvss.Props.C13v3", "Cvss.Props.C13v4"], ties=["Cvss.Model.SrcTie"], streams=["parse"]),
+    "C13": dict(modules=["Cvss.Props.C13", "Cvss.Props.C13v2", "Cvss.Props.C13v3", "Cvss.Props.C13v4"], ties=["Cvss.Model.SrcTie"], streams=["parse"]),
     "C14": dict(modules=["Cvss.Props.C14"], ties=["Cvss.Model.SrcTie"], streams=["race", "obj"]),
     "C15": dict(modules=["Cvss.Props.C15"], ties=[], streams=["rating"]),
     "C16": dict(modules=["Cvss.Props.C16"], ties=[], streams=["obj"]),
     "C17": dict(modules=[], ties=[], streams=["obj", "alloc"]),
-    "C18": dict(modules=["Cvss.Props.C18v2", "Cvss.Props.C18v3", "Cvss.Props.C18v4", "Cvss.Findings.C18v2"], ties=["Cvss.Model.SrcTie"], streams=["defect", "obj", "parse"]),
+    "C18": dict(modules=["Cvss.Props.C18", "Cvss.Props.C18v2", "Cvss.Props.C18v3", "Cvss.Props.C18v4", "Cvss.Findings.C18v2"], ties=["Cvss.Model.SrcTie"], streams=["defect", "obj", "parse"]),
 }
 
 # every stream also validates the model (DIFF lines); the float stream validates Base/F64 for the score properties
@@ -45,10 +45,46 @@ def _lt(category, text, note, technique):
 _PENDING = "Lean theorems for this property are being merged; until its Props modules are registered the check decides it by the Spec-oracle differential only"
 _NOTE = ("testing level: reach bounded by the generators (edit neighbourhoods of valid skeletons, seeded mutational and random streams); "
          "oracle = executable Lean Spec (lean/Cvss/Spec), model validated against the code on every run")
+_TECH = "Lean 4 proof about a model regenerated from the Go source, tied by translation + differential correspondence; Spec-oracle search for the failing input"
+_PARSER_NOTE = ("trusted: Lean kernel; the hand-written parser model Model/Parse.lean (tied to ParseVector/split/splitCouple/kvm.Set by source hashes and by the "
+                "parse/defect streams: ~1.3e5 strings per quick run, edit neighbourhoods of valid skeletons + mutational + random bytes, 0 differences); the translator for "
+                "Get/Set/tables; the Spec transcription (Spec/Metrics, Spec/Grammar, Spec/Errors)")
 LEVEL_TEXT = {
     pid: _lt("exploration", _PENDING, _NOTE, "differential testing of the implementation against an executable Lean Spec and model (proofs pending)")
-    for pid in ["C01", "C02", "C06", "C07", "C08", "C09", "C13", "C14", "C16", "C17", "C18"]
+    for pid in ["C02", "C08", "C17"]
 }
+LEVEL_TEXT["C01"] = _lt("proof",
+    "Theorems C01.v20/v30/v31/v40: for EVERY byte string (induction, no length bound) the parser model accepts iff the string is in the generative grammar of "
+    "Spec/Grammar.lean (right header, only the version's abbreviations, each at most once, order rule, all mandatory metrics, legal values, nothing else), and "
+    "C01.no_panic. Instantiated with the Get/Set contract proved from the regenerated bit-field code (Proofs/Bits*.lean), so a changed value list, header constant or "
+    "order table breaks a named lemma. The Go-level result shape (nil/non-nil) and absence of panics of the real code are asserted by the harness on every call.",
+    _PARSER_NOTE, _TECH)
+LEVEL_TEXT["C06"] = _lt("proof",
+    "Theorems C06.v20…v40: for every accepted string, every grammar witness of it and every metric, the regenerated Get on the parsed object returns the value "
+    "written in the string, or ND/X for an omitted optional metric (valueOf of the Spec witness, not of the parser); proved via get-after-set laws on value STRINGS "
+    "against the Spec tables, so a consistent encoder/decoder permutation is excluded.", _PARSER_NOTE, _TECH)
+LEVEL_TEXT["C07"] = _lt("proof",
+    "Theorems C07.V20/V30/V31/V40: for ALL byte states and all strings: successful Set(m,v) makes Get(m)=v and leaves every other metric's Get unchanged (all ordered pairs); "
+    "a failed Set returns the object unchanged; well-formedness is preserved; Reachable c <-> wf c; two well-formed objects with equal Gets are equal (==). "
+    "Proved on the regenerated Get/Set by per-arm specialisation and one-byte kernel enumerations (decide), so any mask/shift/value-list typo breaks a lemma.",
+    "trusted: Lean kernel; the translator for Get/Set/validate (validated by the obj stream: Set/Get/observers from zero, random histories, random and patterned raw bytes); Base/Go.lean semantics of uint8 ops", _TECH)
+LEVEL_TEXT["C09"] = _lt("proof",
+    "Theorems C09.V20…V40: Get/Set recognise exactly the Spec abbreviations (any other byte string, incl. case variants, gives *ErrInvalidMetric and no change); Set accepts "
+    "exactly the Spec value list of the metric; every reachable object is wf and every Get on it is a legal non-empty value. The consequences 'Vector() is grammatical' and "
+    "'scores do not panic' are theorems of C02 and C03-C05/C11; this check additionally judges them on every object of the obj/parse streams.",
+    "trusted: as C07; Spec/Metrics.lean tables", _TECH)
+LEVEL_TEXT["C13"] = _lt("proof",
+    "Theorem C13.exclusive: for every byte string at most one of the four parser models accepts (accepted => own prefix; the regenerated header constants are pairwise "
+    "prefix-incompatible, by decide). 'Vector() of one version is rejected by the others' follows with C02 and is also judged on every X operation of the parse stream.",
+    _PARSER_NOTE, _TECH)
+LEVEL_TEXT["C14"] = _lt("proof",
+    "PARTIAL. Proved (Props/C14.lean): the regenerated shared-state facts (no package-level writes in any package; the only shared mutable object is v2's splitPool with "
+    "exactly Get/Put in ParseVector; exactly one unsafe conversion per Vector); ParseVector run with ANY stale 14-slot pool buffer equals the pool-free model "
+    "(parse20With_indep); for EVERY schedule of the ownership state machine (threads x pool, steps get/tick/put/gc) every result equals the sequential parse "
+    "(schedule_independent), with an aliasing counter-model showing the theorem is not vacuous. NOT provable in any model here: the Go memory model, sync.Pool's "
+    "implementation, unsafe aliasing, the race detector's verdict - covered by testing only (race stream: 16 goroutines under -race, poisoned pool, string stability, copies).",
+    "trusted: sync.Pool contract (an object obtained by Get is not handed out again before Put) as the model's step rule; translator's state-fact extractor is syntactic "
+    "(no alias/data-flow analysis); Go runtime for everything concurrent", _TECH + "; runtime part: stress testing under the race detector")
 LEVEL_TEXT["C15"] = _lt(
     "proof",
     "Lean 4 theorems rating30/31/40_spec: for EVERY non-NaN float64 bit pattern the regenerated Rating of each package returns exactly what the "
@@ -58,5 +94,15 @@ LEVEL_TEXT["C15"] = _lt(
     "trusted: Lean kernel; translator for Rating (validated by the rating stream: 7k/600k bit patterns incl. every threshold and its float neighbours, compared "
     "with the real functions); F64.lt/F64.le formalisation (proved equal to the exact order, so only the IEEE decoding in Spec/Rating.lean is trusted)",
     "Lean 4 proof over all float64 (structural, omega) on the regenerated model + differential validation of the translation")
+LEVEL_TEXT["C16"] = _lt("proof",
+    "Theorem C16.nomenclature: for EVERY byte state the regenerated Nomenclature equals CVSS-B ++ (T iff Get(E) != X) ++ (E iff some environmental metric of the Spec "
+    "table reads != X); base and supplemental metrics provably irrelevant. One-byte kernel enumerations against the bit layout proved in C07.",
+    "trusted: Lean kernel; translator for Nomenclature/Get (validated by the obj stream); Spec group tables", _TECH)
+LEVEL_TEXT["C18"] = _lt("proof",
+    "Theorems C18.v30/v31/v40: for every grammatical vector, every defect of Spec/Errors.lean (bad/missing header, illegal value, removed mandatory metric, repeated, unknown, "
+    "swapped, truncated) at every position, the parser model returns exactly the documented error value incl. the Abv payload; getset_errors*: unknown abbreviation / "
+    "illegal value for Get/Set. v2.0: the full statement is FALSE on the unchanged code (known finding F3, negation proved in Findings/C18v2.lean and reproduced on the real "
+    "code); v20_partial proves every case except an insertion after a complete environmental group, and v2_errors_afterEnv characterises the finding exactly.",
+    _PARSER_NOTE, _TECH)
 for pid in ["C03", "C04", "C05", "C10", "C11", "C12"]:
     NOT_CLAIMED[pid] = "check under construction (Spec and theorems for this property are not merged yet); see DESIGN.md section 7"
